@@ -308,6 +308,16 @@ func (g *G) name(pos identPos) Frag {
 	case c < 8 && rapid.IntRange(0, 7).Draw(g.T, g.label("name.confusable")) == 0:
 		g.tag("ident.unicode-confusable")
 		return both(Lex{K: ID, V: confusableNames[rapid.IntRange(0, len(confusableNames)-1).Draw(g.T, g.label("name.confusable.n"))]})
+	case c < 8 && rapid.IntRange(0, 5).Draw(g.T, g.label("name.composed")) == 0:
+		// a composed name: quotes, back-quote, backslash, blanks, dots, non-ASCII in one identifier
+		parts := []string{"a", "B", "1", " ", "-", "`", "\\", "'", "\"", "é", ".", "\n", "_", "*/", "--"}
+		k := rapid.IntRange(1, 5).Draw(g.T, g.label("name.composed.n"))
+		var b strings.Builder
+		for i := 0; i < k; i++ {
+			b.WriteString(parts[rapid.IntRange(0, len(parts)-1).Draw(g.T, g.label("name.composed.part"))])
+		}
+		g.tag("ident.composed")
+		return both(Lex{K: ID, V: b.String()})
 	case c < 8:
 		n := quotedNames[rapid.IntRange(0, len(quotedNames)-1).Draw(g.T, g.label("name.quoted"))]
 		if n == "" {
@@ -384,12 +394,36 @@ func (g *G) TagList() []string {
 var stringValues = []string{"", "abc", "it's", "say \"hi\"", "a;b", "--x", "/*c*/", "line\nbreak", "tab\t", "back\\slash", "日本語", "é", "\x00", "\x7f", "\xff",
 	"`tick`", "'\"", "2024-01-02", "{\"a\":1}", "1.5", "%a_", "\r\n", "'''", "\"\"\"", "a'''b", "\\x41", " ", "\U0001F600", "?", "#"}
 
+// valueParts are concatenated into composed literal values (quotes of all kinds, backslashes, escapes-as-text, control and
+// non-ASCII characters in one value: the combinations a fixed pool never has).
+var valueParts = []string{"'", "\"", "`", "\\", "a", " ", "\n", "é", "{", "}", ":", "\t", "\x00", "x", "%", "--", "/*", "*/", ";", "\\n", "\\\"", "''", "\"\"", "日", "\x7f", "\u0085", "\\u0041", "#", "?"}
+
+func (g *G) composedValue(tag string, bytes bool) string {
+	n := rapid.IntRange(1, 6).Draw(g.T, g.label(tag+".parts"))
+	var b strings.Builder
+	for i := 0; i < n; i++ {
+		if bytes && rapid.IntRange(0, 9).Draw(g.T, g.label(tag+".rawbyte")) == 0 {
+			b.WriteByte(rapid.Byte().Draw(g.T, g.label(tag+".byte")))
+			continue
+		}
+		b.WriteString(valueParts[rapid.IntRange(0, len(valueParts)-1).Draw(g.T, g.label(tag+".part"))])
+	}
+	g.tag("value.composed")
+	return b.String()
+}
+
 func (g *G) strLit() Frag {
+	if rapid.IntRange(0, 3).Draw(g.T, g.label("str.composed")) == 0 {
+		return both(Lex{K: STR, V: g.composedValue("str", false)})
+	}
 	v := stringValues[rapid.IntRange(0, len(stringValues)-1).Draw(g.T, g.label("str.value"))]
 	return both(Lex{K: STR, V: v})
 }
 
 func (g *G) bytesLit() Frag {
+	if rapid.IntRange(0, 3).Draw(g.T, g.label("bytes.composed")) == 0 {
+		return both(Lex{K: BYTES, V: g.composedValue("bytes", true)})
+	}
 	v := stringValues[rapid.IntRange(0, len(stringValues)-1).Draw(g.T, g.label("bytes.value"))]
 	return both(Lex{K: BYTES, V: v})
 }
